@@ -75,7 +75,7 @@ TRUSTED = ['md5 (hashlib) of the WHOLE file as the digest of to_file/hash_matche
            'networkx; the engine model is the C01 one']
 REQUIRED_BUCKETS = ['yml:same', 'json:same', 'pkl:same', 'yml:thread', 'yml:proc', 'json:proc', 'pkl:proc',
                     'pkl:thread', 'json:thread', 'pool', 'cse', 'iter-fixture', 'hash:none', 'hash:before-save',
-                    'hash:after-save', 'hash:after-load', 'pk:small', 'pk:large', 'xd', 'unbounded']
+                    'hash:after-save', 'hash:after-load', 'pk:small', 'pk:large', 'xd', 'unbounded', 'failed-save']
 EXHAUSTIVE = False
 EXPLANATION = ('theorems: persistence model + C01 engine, all cell maps/codecs/histories; correspondence: file content, '
                'save-twice, re-save and post-load history of the real ExcelCompiler vs the compiled model; '
@@ -293,7 +293,171 @@ def impl(case):
             return _impl_pk(case, key, tmp)
         if case.get('kind') == 'xd':
             return _impl_xd(case, key, tmp)
+        if case.get('kind') == 'fs':
+            return _impl_fs(case, key, tmp)
         return _impl(case, key, tmp)
+
+
+# ---------------------------------------------------------------------------------------------------------------
+# failed saves: a to_file that raises (caught by the caller) must not change what any later save in the process writes
+
+class _Opaque:
+    """something no text format can represent"""
+
+
+def _bad_value(kind):
+    import numpy as np
+    return {'set': {1, 2}, 'object': _Opaque(), 'numpy': np.int64(3), 'lambda': (lambda: 0)}[kind]
+
+
+FS_A = {'Sheet1!A1': 1, 'Sheet1!A2': 2, 'Sheet1!B1': '=SUM(A1:A2)', 'Sheet1!B2': '=B1*10'}
+FS_B = {'Sheet1!A1': 5, 'Sheet1!A2': 'x', 'Sheet1!B1': '=A1&"|"&A2', 'Sheet1!C1': '=A1+1', 'Sheet1!C2': 0.1}
+
+
+def _fs_model(cells, extra):
+    from harness import pyc
+    comp = pyc.compiler_from(cells)
+    for a in cells:
+        comp.evaluate(a)
+    if extra is not None:
+        comp.extra_data = json.loads(json.dumps(extra))
+    return comp
+
+
+def _fs_save_all(comp, d):
+    """save in every format into directory d -> {name: bytes of the text file}"""
+    os.makedirs(d, exist_ok=True)
+    out = {}
+    comp.to_file(os.path.join(d, 'b.yml'))
+    comp.to_file(os.path.join(d, 'b.json'))
+    comp.to_file(os.path.join(d, 'bp'), file_types=('pkl', 'yml'))
+    for n in ('b.yml', 'b.json', 'bp.yml'):
+        out[n] = open(os.path.join(d, n), 'rb').read()
+    return out
+
+
+def fs_fresh_main():
+    """fresh process: build model B and save it in every format; print the text files"""
+    job = json.load(sys.stdin)
+    import base64
+    os.chdir(job['tmp'])
+    comp = _fs_model(FS_B, job['extra'])
+    out = _fs_save_all(comp, job['dir'])
+    sys.stdout.write('\n@@RESULT@@' + json.dumps({k: base64.b64encode(v).decode() for k, v in out.items()}))
+
+
+def _impl_fs(case, key, tmp):
+    import base64
+    from pycel import ExcelCompiler
+    info = {'kind': 'fs', 'fails': []}
+    _INFO[key] = info
+    fails = info['fails']
+    cwd = os.getcwd()
+    os.chdir(tmp)                # in-memory workbooks record <cwd>/Unknown as their file name
+    try:
+        a = _fs_model(FS_A, {'owner': 'a'})
+        b = _fs_model(FS_B, case['extra'])
+        fmt_a = case['fmt_a']
+        a_target = os.path.join(tmp, 'a') if fmt_a == 'pkl' else os.path.join(tmp, 'a.' + fmt_a)
+        a_kw = {'file_types': ('pkl', 'yml')} if fmt_a == 'pkl' else {}
+        a_text = os.path.join(tmp, 'a.yml') if fmt_a == 'pkl' else a_target
+        a.to_file(a_target, **a_kw)
+        a1 = open(a_text, 'rb').read()
+        pk1 = os.stat(os.path.join(tmp, 'a.pkl')).st_mtime_ns if fmt_a == 'pkl' else None
+        before = _fs_save_all(b, os.path.join(tmp, 'before'))
+        # the failing save of B
+        how, ffmt = case['fail'], case['fmt_fail']
+        target = os.path.join(tmp, 'bad', 'b') if ffmt == 'pkl' else os.path.join(tmp, 'bad', 'b.' + ffmt)
+        kw = {'file_types': ('pkl', 'yml')} if ffmt == 'pkl' else {}
+        os.makedirs(os.path.join(tmp, 'bad'))
+        keep = b.extra_data
+        if how in ('set', 'object', 'numpy', 'lambda'):
+            if b.extra_data is None:
+                b.extra_data = {}
+            b.extra_data['bad'] = _bad_value(how)
+        elif how == 'nodir':
+            target = target.replace(os.sep + 'bad' + os.sep, os.sep + 'missing' + os.sep)
+        elif how == 'filedir':
+            open(os.path.join(tmp, 'plain'), 'w').close()
+            target = target.replace(os.sep + 'bad' + os.sep, os.sep + 'plain' + os.sep)
+        elif how == 'badext':
+            target, kw = os.path.join(tmp, 'bad', 'b'), {'file_types': ('xyz',)}
+        try:
+            b.to_file(target, **kw)
+            raised = None
+        except Exception as exc:   # noqa
+            raised = type(exc).__name__
+        info['raised'] = raised
+        # the correction: the offending entry is removed (in place, or the dict is replaced)
+        if how in ('set', 'object', 'numpy', 'lambda'):
+            if case['repair'] == 'inplace':
+                b.extra_data.pop('bad', None)
+                if case['extra'] is None:
+                    for k in RESERVED:
+                        b.extra_data.pop(k, None)
+                    if not b.extra_data:
+                        b.extra_data = None
+            else:
+                b.extra_data = None if case['extra'] is None else json.loads(json.dumps(case['extra']))
+        # A again: byte-identical, pickle untouched
+        try:
+            a.to_file(a_target, **a_kw)
+            if open(a_text, 'rb').read() != a1:
+                fails.append(f'after a failed save ({how}/{ffmt}: {raised}) of another model, saving the unchanged model '
+                             f'A again changed its text file')
+            elif pk1 is not None and os.stat(os.path.join(tmp, 'a.pkl')).st_mtime_ns != pk1:
+                fails.append('… rewrote the pickle of the unchanged model A')
+        except Exception as exc:   # noqa
+            fails.append(f'after a failed save ({how}/{ffmt}: {raised}) of another model, to_file({fmt_a}) of model A '
+                         f'raises {type(exc).__name__}: {str(exc)[:80]}')
+        # B corrected: every format, same bytes as before the failure
+        ok = []
+        try:
+            after = _fs_save_all(b, os.path.join(tmp, 'after'))
+        except Exception as exc:   # noqa
+            after = None
+            fails.append(f'after its failed save ({how}/{ffmt}: {raised}) the corrected model can no longer be saved: '
+                         f'{type(exc).__name__}: {str(exc)[:80]}')
+        for n in ('b.yml', 'b.json', 'bp.yml'):
+            same_bytes = after is not None and after[n] == before[n]
+            ok.append('1' if same_bytes else '0')
+            if after is not None and not same_bytes:
+                fails.append(f'{n}: the save after the failed one differs from the same save before it '
+                             f'(top-level keys {list(_doc_of_bytes(before[n]))} -> {list(_doc_of_bytes(after[n]))})')
+        fresh = '-'
+        if case.get('fresh') and after is not None:
+            env = dict(os.environ)
+            env['PYCEL_REPO'] = core.REPO
+            p = subprocess.run(['/venv/bin/python', '-c', f'import sys; sys.path.insert(0, {core.VERIF!r}); '
+                                'from harness.props import c03; c03.fs_fresh_main()'],
+                               input=json.dumps({'extra': case['extra'], 'dir': os.path.join(tmp, 'fresh'), 'tmp': tmp}),
+                               capture_output=True, text=True, timeout=300, env=env, cwd=tmp)
+            if '@@RESULT@@' not in p.stdout:
+                raise RuntimeError(f'fresh saver died: {p.stderr[-300:]}')
+            got = {k: base64.b64decode(v) for k, v in json.loads(p.stdout.split('@@RESULT@@')[-1]).items()}
+            fresh = '1' if got == after else '0'
+            if got != after:
+                fails.append('the saves after the failed one differ from the same saves done in a fresh process: ' +
+                             ', '.join(n for n in got if got[n] != after[n]))
+        # load what was written after the failure; loaded vs original under a small history
+        if after is not None:
+            watch = list(FS_B)
+            for n in ('b.yml', 'b.json', 'bp.pkl'):
+                try:
+                    l = ExcelCompiler.from_file(os.path.join(tmp, 'after', n))
+                    for m in (l, b):
+                        m.set_value('Sheet1!A1', 7)
+                    x, y = [core.enc(l.evaluate(w)) for w in watch], [core.enc(b.evaluate(w)) for w in watch]
+                    for m in (l, b):
+                        m.set_value('Sheet1!A1', 5)
+                    if x != y:
+                        fails.append(f'{n} written after the failed save: loaded {x}, original {y}')
+                except Exception as exc:   # noqa
+                    fails.append(f'{n} written after the failed save cannot be loaded/evaluated: {type(exc).__name__}')
+        _ = keep
+        return f'again:{0 if any("model A" in f for f in fails) else 1};b:{"".join(ok)};fresh:{fresh}'
+    finally:
+        os.chdir(cwd)
 
 
 # ---------------------------------------------------------------------------------------------------------------
@@ -647,6 +811,8 @@ def model_lines(case):
         return ['c03 hash 0 ' + ' '.join((info or {}).get('curs', ['!']))]
     if case.get('kind') == 'pk':
         return ['c03 pk ' + ' '.join((info or {}).get('texts', ['!']))]
+    if case.get('kind') == 'fs':
+        return ['c03 fs ' + ('1' if case.get('fresh') else '0')]
     if case.get('kind') == 'xd':
         toks = ['c03', 'xd']
         toks += ['none'] if case['extra'] is None else [str(len(case['extra']))] + [core.enc_text(k) for k in case['extra']]
@@ -774,7 +940,7 @@ def oracles(results):
         if info is None:
             yield r.case, f'implementation failed before the model was saved: {r.impl[:200]}'
             continue
-        if info.get('kind') in ('hash', 'pk', 'xd'):
+        if info.get('kind') in ('hash', 'pk', 'xd', 'fs'):
             if info['fails']:
                 yield r.case, '; '.join(info['fails'][:3])
             continue
@@ -889,7 +1055,7 @@ def finding_key(case, impl_out, model_out):
 def nontrivial(case):
     if case.get('kind') == 'hash':
         return case['edit'] != 'none'
-    if case.get('kind') in ('pk', 'xd'):
+    if case.get('kind') in ('pk', 'xd', 'fs'):
         return True
     nodes = case['nodes']
     if any(n[0] == 'X' for n in nodes):
@@ -975,7 +1141,7 @@ OPS = {'S': 3, 'E': 2, 'SR': 5, 'EL': 2}
 def supported(case):
     """the workbook and both histories only use node kinds and operations the model driver understands: a case that
     the (shared, evolving) c01 generators produce outside this whitelist is never emitted"""
-    if case.get('kind') in ('pk', 'xd'):
+    if case.get('kind') in ('pk', 'xd', 'fs'):
         return True
     for n in case['nodes']:
         if n[0] not in ('I', 'F', 'R', 'X') or (n[0] == 'F' and n[2] not in KINDS):
@@ -1032,6 +1198,9 @@ def _gen_case(rng, fmt, mode, cycles, near):
     if not near and rng.random() < 0.25:
         pool = ['name_a', 'rate_b', 'total_c']
         used = sorted({j for n in nodes if n[0] == 'F' for j in (n[3][:1] if n[2] == 'idx' else n[3])})
+        # (as in c01: a defined name whose destination sheet has an apostrophe is not resolved by pycel — the formula
+        #  gives #NAME? on the original and the loaded model alike; C04/C11's subject)
+        used = [j for j in used if "''" not in nodes[j][1]]
         for j in rng.sample(used, min(len(used), rng.randint(1, 3))):
             names[pool[len(names)]] = j
     hostile = add_hostile(rng, nodes)
@@ -1226,8 +1395,23 @@ def ub_cases(rng, count):
         yield case(rng.choice(['pkl', 'pkl', 'yml', 'json']), rng.choice(['same', 'same', 'thread']), k, pre, ops)
 
 
+def fs_cases(rng, thorough):
+    """a save that raises (caught), then: model A saved again, the corrected model saved in every format, loaded"""
+    hows = ['set', 'object', 'numpy', 'lambda', 'nodir', 'filedir', 'badext']
+    k = 0
+    for how in hows:
+        for ffmt in ('yml', 'json', 'pkl'):
+            for fmt_a in (('yml', 'json', 'pkl') if thorough else ('yml', 'pkl') if ffmt == 'yml' else ('yml',)):
+                k += 1
+                yield {'kind': 'fs', 'tag': 'failed-save', 'fail': how, 'fmt_fail': ffmt, 'fmt_a': fmt_a,
+                       'extra': rng.choice([None, {'owner': 'me'}, {'zzz': [1, 2], 'aaa': {'n': 1}}]),
+                       'repair': rng.choice(['inplace', 'replace']),
+                       'fresh': 1 if (k % (5 if thorough else 12) == 1) else 0, 'nodes': [], 'pre': [], 'ops': []}
+
+
 def cases(tier, rng):
     thorough = tier == 'thorough'
+    yield from fs_cases(rng, thorough)          # first: what a failed save leaves behind in the process meets every later case
     yield from pool_cases()
     yield from xd_cases(rng, 120 if thorough else 12)
     yield from ub_cases(rng, 150 if thorough else 15)
